@@ -116,6 +116,14 @@ def seq_mult_replay(p, A, B, regs=None):
 
 
 def run(ctx):
+    import contracts.adders     # noqa: F401
+    from pyvc.contract import REGISTRY
+    from pyvc import run as prun
+    cs = [c for c in REGISTRY.values() if 'C13' in c.props]
+    prun.run_contracts(ctx, cs, 'contracts.adders')
+    ctx.assume('builder model (contracts/wiremodel.py): wire = (bitwidth, den); add_net = [WF_net obligation] + '
+               '[dest.den := documented value]; operators summarised by their contracts (contracts/wire.py); '
+               'ripple adders by induction on the operand length')
     combfam.run_comb_family(ctx, 'C13.arith', cases(ctx.tier), FUNCS,
                             'adder/multiplier result is not the exact sum/product')
     # sequential multipliers
@@ -146,6 +154,7 @@ def run(ctx):
                bound='BMC of len(A)+3 cycles from an arbitrary register state, start pulsed once, '
                      'operands stable; all operand values', sample=tasks[0])
     ctx.assume('z3 soundness; spec/netsem.py')
-    return ctx.finish('other', './check C13', ['z3', 'spec/netsem.py', 'elab/n2smt.py'],
-                      'bounded stand-in: generators elaborated per width/parameter combination; all '
-                      'operand values decided by SMT')
+    return ctx.finish('other', './check C13', ['z3', 'pyvc', 'spec/netsem.py', 'elab/n2smt.py'],
+                      'P: half_adder, _one_bit_add_no_concat, one_bit_add, ripple_half_add, ripple_add exact at '
+                      'the documented width for all widths and values (induction); bounded stand-in: the other '
+                      'generators elaborated per width/parameter combination; all operand values decided by SMT')
